@@ -101,7 +101,7 @@ def _next_month(ctx):
 
 def run(ctx):
     ctx.assumptions += [
-        "one consumer, two buyers (the second one can afford little), plans p1 < p2, months in {1, 2, 12}",
+        "two consumers (c1 rich, c2 420 tokens) and a poor third-party buyer who can all be drained, plans p1 < p2, months in {1, 2, 12}",
         "an epoch is shorter than a month; a month tick is one block whose time is exactly the month expiry",
         "NextMonth compared on all days of 2024-2025 at 00:00:00, 01:01:01, 23:59:59",
     ]
@@ -112,11 +112,19 @@ def run(ctx):
         cands.append(cand)
     else:
         ctx.add_mc("Subscription (all txs, 2 plans, 2 buyers)", res)
+    # reachability query: TLC constructs the shortest history with an advance purchase accepted while the upgraded
+    # subscription version still waits for the next epoch; continued over the epoch boundary and two month ticks
+    r2, c2 = sl.mc(ctx, "Subscription_cov2.cfg", timeout=600)
+    if not c2:
+        raise vlib.Infra("coverage target 'advance purchase after an upgrade in the same epoch' not reachable in the model")
+    adv = lambda a, n: {"a": a, "cr": "", "c": "", "p": "", "d": 0, "f": False, "n": n}  # noqa: E731
+    cands.append(c2 + [adv("epoch", 20), adv("month", 1), adv("month", 1)])
     if not _next_month(ctx):
         return
     n = ctx.pick(60, 400)
     need = {"buy:new": 30, "buy:extend": 10, "buy:upgrade": 2, "adv:new": 10, "adv:replace": 2, "auto:ok": 10,
-            "month:continue": 10, "month:renew": 5, "month:expire": 5, "month:activate-future": 3, "buy:fail": 5}
+            "month:continue": 10, "month:renew": 5, "month:expire": 5, "month:activate-future": 3, "buy:fail": 5,
+            "adv:after-upgrade-same-epoch": 2, "month:renew-failed": 2, "drain:ok": 5}
     st = sl.collections.Counter()
     behs, nrows = [], 0
     for rnd in range(4):     # top-up rounds until every action kind is covered
